@@ -86,6 +86,54 @@ def sample_spec(spec):
 # --------------------------------------------------------------------------------------------------
 # C01: accepted => compiles
 # --------------------------------------------------------------------------------------------------
+def compact_ops(ops):
+    out = []
+    for op in ops:
+        if op["k"] == "nest":
+            out.append("nest%s%s(%s)" % (":" + op["prefix"] if op.get("prefix") else "", ":" + op["domain"] if op.get("domain") else "",
+                                         compact_ops(op["bp"]["ops"])))
+        elif op["k"] == "ctor":
+            out.append(f"{op['c']}/{(op.get('lc') or 'request_scoped')[0].upper()}{'+cin' if op.get('cl') == 'clone_if_necessary' else ''}"
+                       + (f"!{op['eh']}" if op.get("eh") else ""))
+        else:
+            out.append(op["c"] + (f"!{op['eh']}" if op.get("eh") else ""))
+    return "|".join(out)
+
+
+def compact_spec(spec):
+    if spec.get("pack"):
+        return f"pack[{spec['id']}]"
+    return compact_ops(spec["bp"]["ops"])
+
+
+def c01_structural_class(spec):
+    """Collapse the manifestations of one recorded defect to one key per rustc error code:
+    a wrapping middleware takes a request-scoped value (by value or by reference) that a component
+    further inside the pipeline (a later stage, reached through the `Next` state) borrows mutably.
+    Any other failing shape keeps its full compact spec as key."""
+    try:
+        an = M.Analysis(spec)
+        for r in an.routes:
+            P = M.Pipeline(an, r)
+            for j, sc in enumerate(P.scopes):
+                if sc["wrap"] is None:
+                    continue
+                wrap_types = {i["type"] for i in M.cat(sc["wrap"]["c"]).get("inputs", [])}
+                inner = []
+                for sc2 in P.scopes[j:]:
+                    inner += sc2["pres"] + sc2["posts"]
+                    if sc2 is not sc and sc2["wrap"] is not None:
+                        inner.append(sc2["wrap"])
+                inner.append(P.handler_op)
+                for op in inner:
+                    for i in M.cat(op["c"]).get("inputs", []):
+                        if i["mode"] == "m" and i["type"] in wrap_types:
+                            return "wrap-uses-value-mutably-borrowed-further-inside"
+    except Exception:
+        return None
+    return None
+
+
 def rustc_key(err):
     m = re.search(r"error(\[E\d+\])?: ([^\n]*)", err)
     if not m:
@@ -110,9 +158,12 @@ def oracle_c01(obs, rep, tier):
             if len(samples) < 3:
                 samples.append(sample_spec(spec))
             if not build["build_ok"]:
+                if spec.get("pack") and all(F.single_spec(fam, i, o["shapes"][i])["id"] in o["build"] for i in spec["members"]):
+                    continue  # re-built member by member: the members carry the verdict
                 fails += 1
                 err = build["build_errors"][0] if build["build_errors"] else ""
-                rep.violation(f"{fam}:{rustc_key(err)}",
+                cls = c01_structural_class(spec)
+                rep.violation(f"{fam}:{rustc_key(err)[:60]}:{cls or compact_spec(spec)}",
                               f"pavexc accepted blueprint {spec['id']} but the generated crate does not compile: {err[:300]}",
                               {"oracle": "C01", "spec": spec, "rustc": build["build_errors"][:2]})
     cov = {"evaluations": n_built, "distinct_nontrivial": len(shas), "exhaustive": True,
@@ -415,8 +466,14 @@ def oracle_c09(obs, rep, tier):
 # registry
 # --------------------------------------------------------------------------------------------------
 def observe_special_family(fam, tier):
-    import special
-    return special.observe(fam, tier)
+    """Families that are not packable shape lists live in plug-in modules fam_<name>.py exposing
+    observe(tier) -> observation dict (see EXTENDING.md)."""
+    import importlib
+    mod = importlib.import_module(f"fam_{fam}")
+    o = mod.observe(tier)
+    o.setdefault("family", fam)
+    o.setdefault("tier", tier)
+    return o
 
 
 FAMILIES_OF = {
@@ -433,13 +490,48 @@ ORACLES = {"C01": oracle_c01, "C02": oracle_c02, "C03": oracle_c03, "C04": oracl
            "C06": oracle_c06, "C09": oracle_c09}
 
 
+def _load_plugins():
+    """fam_*.py may export PROPERTIES = {"Cxx": (families_fn(tier) -> [family], oracle_fn(obs, rep, tier))}.
+    A plug-in oracle for a property that already has one is chained: both run, coverage is merged."""
+    import glob
+    import importlib
+    here = os.path.dirname(os.path.abspath(__file__))
+    for path in sorted(glob.glob(f"{here}/fam_*.py")):
+        mod = importlib.import_module(os.path.basename(path)[:-3])
+        for prop, (fams_fn, oracle_fn) in getattr(mod, "PROPERTIES", {}).items():
+            if prop in ORACLES:
+                base_f, base_o = FAMILIES_OF[prop], ORACLES[prop]
+
+                def fams(tier, base_f=base_f, fams_fn=fams_fn):
+                    return list(dict.fromkeys(base_f(tier) + fams_fn(tier)))
+
+                def oracle(obs, rep, tier, base_f=base_f, base_o=base_o, fams_fn=fams_fn, oracle_fn=oracle_fn):
+                    lvl, cov, asm = base_o({f: obs[f] for f in base_f(tier) if f in obs}, rep, tier)
+                    lvl2, cov2, asm2 = oracle_fn({f: obs[f] for f in fams_fn(tier) if f in obs}, rep, tier)
+                    cov = dict(cov)
+                    cov["evaluations"] += cov2.get("evaluations", 0)
+                    cov["distinct_nontrivial"] += cov2.get("distinct_nontrivial", 0)
+                    cov["samples"] = cov.get("samples", []) + cov2.get("samples", [])[:2]
+                    cov["rule"] = cov["rule"] + " || PLUS: " + cov2.get("rule", "")
+                    cov["exhaustive"] = bool(cov.get("exhaustive")) and bool(cov2.get("exhaustive"))
+                    cov["plugin_coverage"] = {k: v for k, v in cov2.items() if k not in ("samples", "rule")}
+                    return lvl, cov, list(dict.fromkeys(asm + asm2))
+
+                FAMILIES_OF[prop], ORACLES[prop] = fams, oracle
+            else:
+                FAMILIES_OF[prop], ORACLES[prop] = fams_fn, oracle_fn
+
+
+_load_plugins()
+
+
 def replay(prop, path, rep):
     with open(path) as f:
         doc = json.load(f)
     case = doc.get("case", doc)
     spec = case["spec"]
     import orchestrator
-    d = f"{L.WORK}/e2e/replay-{prop}"
+    d = f"{L.E2E_WORK}/replay-{prop}"
     shutil.rmtree(d, ignore_errors=True)
     o = orchestrator.observe_specs([spec], d)
     fam = spec.get("family", "replay")
